@@ -358,6 +358,50 @@ def r07_8(prog, cfg):
     return r
 
 
+def r07_9(prog, cfg):
+    """An ill-formed list (NULL element pointer) is refused, not dereferenced.  In every encoder-side function, a local
+    that is loaded from `list->array[i]` (an element of a SET OF / SEQUENCE OF) and then handed to an encoder -- a member
+    encoder slot, uper_encode, or any function reachable from an encoder slot that takes the structure pointer -- must
+    not reach that call while it can still be NULL (assume-NULL: every test of the local takes its zero edge).  The DER,
+    XER and UPER paths test it; agreement across the sibling encoders is what the rule enforces."""
+    r = Rule("R07.9", "an element pointer taken from a SET OF / SEQUENCE OF list is tested for NULL before it is handed to an encoder", floor=4 if cfg == "default" else 0)
+    cg = prog.callgraph()
+    scope = cg.reachable(common.slot_functions(prog, common.ENCODER_SLOTS))
+    for k in sorted(scope):
+        f = prog.funcs[k]
+        for b, i, e in f.events():
+            tree = vid = None
+            if e["k"] == "decl" and "init" in e:
+                vid, tree = e["id"], e["init"]["tree"]
+            elif e["k"] == "assign" and e.get("op") == "=" and e.get("lhs") == e.get("base") and not e.get("deref") and "rhs" in e:
+                vid, tree = e.get("base_id"), e["rhs"]["tree"]
+            if tree is None or not vid:
+                continue
+            t = strip_casts(tree)
+            if not (isinstance(t, list) and t and t[0] == "sub" and any(n[0] == "member" and n[2] == "array" for n in walk(t[1]))):
+                continue
+            # uses as an argument of an encoder-ish call
+            n = 0
+            for b2, i2, x in f.calls():
+                if not any(is_var(strip_casts(a.get("tree")), vid) for a in x.get("args", [])):
+                    continue
+                enc = (x.get("slot") in common.ENCODER_SLOTS + ["print_struct"]) or x.get("callee") in ("uper_encode", "der_encode", "xer_encode", "oer_encode")
+                if not enc:
+                    continue
+                n += 1
+                key = "%s->%s#%d" % (vid.split("@")[0], x.get("callee") or x.get("slot"), n)
+                pth = guards.var_null_reachable(f, vid, b, i, b2)
+                if pth is None:
+                    r.ok(f, key, "unreachable while the element pointer is NULL", x["line"])
+                else:
+                    r.bad(f, key, "`%s` comes from the list's array and reaches this encoder call without a NULL test: a list holding a NULL "
+                                  "element is dereferenced by the member encoder instead of failing the encoding" % vid.split("@")[0], x["line"],
+                          witness={"path": guards.path_lines(f, pth)})
+    for i_ in r.insts:
+        i_.config = cfg
+    return r
+
+
 def run_config(prog, cfg):
     tab = load_tables("c07")
     ns = load_tables("nullslot")
@@ -384,7 +428,7 @@ def run_config(prog, cfg):
     for r in (r1, r2, r3, r4, r5, r6):
         for i in r.insts:
             i.config = cfg
-    return [r1, r2, r3, r4, r5, r6, r07_7(prog, cfg), r07_8(prog, cfg)]
+    return [r1, r2, r3, r4, r5, r6, r07_7(prog, cfg), r07_8(prog, cfg), r07_9(prog, cfg)]
 
 
 def run(ctx):
